@@ -1,4 +1,5 @@
 import Replicon.Proofs.Visibility
+import Replicon.Proofs.Sync
 /-
 C08 — Hidden entities' data never reaches a client.
 
@@ -69,5 +70,40 @@ theorem C08_known_finding_F14_witness :
     let c3 := (step false c2 .despawnTick).1
     isVisible false c2 = false ∧ isVisible false c3 = true := by
   decide
+
+/-- **Gaining and losing visibility, over ALL histories of the whole server**
+(`Proofs/Sync.lean`, joint model, any number of clients): after any history in which entity
+identifiers are not reused, in the next frame in which `send_replication` runs, for every
+authorized client: an entity the server tracks for it that it must not hold afterwards (hidden
+from it, despawned, or without the replication marker) is in the DESPAWNS section of an update
+message sent to it in that frame; an entity it does not hold and may see afterwards is in the
+CHANGES section of one (whole: `Srv.collect_unknown_whole`).  The statement is per client: other
+clients' cells and ticks do not occur in it. -/
+theorem C08_history_gain_lose (s0 : Srv.Server) (hw : s0.world = []) (hc0 : s0.clients = []) (ops : List Joint.Op)
+    (hl : Joint.Legal { srv := s0 } ops) (ticked : Bool) (ms : Nat) (parts : Nat → List (List Nat))
+    (hr : (Joint.run { srv := s0 } ops).1.srv.running = true)
+    (hc : (Srv.preRun (Joint.run { srv := s0 } ops).1.srv ticked ms).tickChanged = true)
+    (c : Nat) (cl : Srv.Cli) (hm : (c, cl) ∈ (Srv.preRun (Joint.run { srv := s0 } ops).1.srv ticked ms).clients)
+    (ha : cl.authorized = true) (e : Nat) :
+    (e ∈ Srv.keys cl →
+      ¬ (Srv.marked (Srv.preRun (Joint.run { srv := s0 } ops).1.srv ticked ms).world e ∧
+         isVisible (Srv.preRun (Joint.run { srv := s0 } ops).1.srv ticked ms).white
+          (Srv.cell (Srv.ranClient (Srv.preRun (Joint.run { srv := s0 } ops).1.srv ticked ms) parts (c, cl)).2 e) = true) →
+      ∃ o u, (c, o) ∈ (Joint.frame (Joint.run { srv := s0 } ops).1 ticked ms parts).2.1 ∧
+        o.update = some u ∧ e ∈ u.despawns) ∧
+    (e ∉ Srv.keys cl →
+      (Srv.marked (Srv.preRun (Joint.run { srv := s0 } ops).1.srv ticked ms).world e ∧
+         isVisible (Srv.preRun (Joint.run { srv := s0 } ops).1.srv ticked ms).white
+          (Srv.cell (Srv.ranClient (Srv.preRun (Joint.run { srv := s0 } ops).1.srv ticked ms) parts (c, cl)).2 e) = true) →
+      ∃ o u, (c, o) ∈ (Joint.frame (Joint.run { srv := s0 } ops).1 ticked ms parts).2.1 ∧
+        o.update = some u ∧ e ∈ u.changes.map (·.ent)) := by
+  have invp := Joint.history_pre s0 hw hc0 ops hl ticked ms
+  refine ⟨?_, ?_⟩
+  · intro hk hnv
+    obtain ⟨u, hu, he⟩ := Srv.frame_lost_despawned _ parts invp (c, cl) hm ha e hk hnv
+    exact ⟨_, u, Joint.frame_out_of_client _ ticked ms parts hr hc c cl hm ha, hu, he⟩
+  · intro hk hv
+    obtain ⟨u, hu, he⟩ := Srv.frame_gained_whole _ parts invp (c, cl) hm ha e hk hv
+    exact ⟨_, u, Joint.frame_out_of_client _ ticked ms parts hr hc c cl hm ha, hu, he⟩
 
 end Replicon.C08
